@@ -17,6 +17,7 @@ NOT_DECIDED = "routing correctness over histories with channel/request id reuse 
 
 
 def check(F, R, tier):
+    lib.flavour_siblings(R, F, r'^iceoryx2::(port::server::Server|pending_response::PendingResponse)::<.*>::receive$', 'SIBLINGS', 'a request / response is handed out under the same conditions for every payload flavour', floor=2)
     # ---- client side
     cs = F.find_fns(r'^iceoryx2::port::client::ClientSharedState::<.*>::send_request$')
     if len(cs) != 1:
